@@ -534,7 +534,8 @@ def h_writer_write_records(h: H):
         del wb[:]
         w.fields["_row_count"] = SInt(I.ctx.fresh_int("row_count"))
         it["rc_before"] = w.fields["_row_count"].z
-    h.reg.loops[f"{DO}:DataFileWriter.write_batch"] = {"*": LoopSpec(invariant=inv, havoc=havoc, name="batches", skip=["record_batch"])}
+    h.reg.loops[f"{DO}:DataFileWriter.write_batch"] = {"*": LoopSpec(invariant=inv, havoc=havoc, name="batches", skip=["record_batch"],
+                                                                     on_break=lambda I, e, it: h.fail("WRITE-EXACT:every-batch-of-the-table-is-visited(no-early-exit)"))}
     out, val = h.run(f"{DO}:DataFileWriter.write_records", [w, recs])
     h.ensure("WRITE-EXACT:write_records-does-not-raise-by-itself", out == "ok", detail=repr(val) if out != "ok" else "")
     if out != "ok":
